@@ -1,9 +1,15 @@
-"""C20 — program instances are isolated and independent of the rayon pool they run in."""
+"""C20 — program instances are isolated and independent of the rayon pool they run in.
+
+Parts of the tie: (0) source scan for process-wide state; (1) random programs under pool assignments (construction / run / re-run /
+nested), two of them with update_indices() called in the construction pool; (2) concurrent instances; (3) index level
+(gen/props/c20_index.py: CRelNoIndex protocol vs Index/NoIndexPools.v, Index/NoIndexLife.v); (4) gen/c20_pools.py: indices that
+exist BEFORE run() (initial values / update_indices()) built in another pool, relations of hundreds of rows read with no bound
+column, vs the python least-model oracle gen/c20_spec.py and the life model Index/NoIndexLife.v.  corpus/C20.jsonl runs first."""
 import json
 import os
 import re
 
-from .. import dl, engine_tie, gen_dl, lib, prog
+from .. import c20_pools, c20_spec, dl, engine_tie, gen_dl, lib, prog
 
 PROP = "C20"
 PROP_FILE = "Props/C20.v"
@@ -70,19 +76,70 @@ def gen_cases(tier, seed):
     return cases
 
 
-def pool_script(inp, a, b, c):
-    """construct in a pool of a threads, run in a pool of b, run again in a pool of c"""
+def pool_script(inp, a, b, c, prebuild=False):
+    """construct in a pool of a threads, run in a pool of b, run again in a pool of c;
+    prebuild: the (deprecated, public) update_indices() is called in the construction pool after the rows are assigned, so that
+    run() meets indices that are current but were built in another pool"""
     def pool(n):
         return "ascent::rayon::ThreadPoolBuilder::new().num_threads(%d).build().unwrap()" % n
     st = [("raw", "let pa = %s; let pb = %s; let pc = %s;" % (pool(a), pool(b), pool(c))),
-          ("raw", "let mut p = pa.install(|| Prog::default());"), ("set", inp),
-          ("raw", "pb.install(|| p.run());"), ("snap",),
+          ("raw", "let mut p = pa.install(|| Prog::default());"), ("set", inp)]
+    if prebuild:
+        st.append(("raw", "pa.install(|| p.update_indices());"))
+    st += [("raw", "pb.install(|| p.run());"), ("snap",),
           ("raw", "pc.install(|| p.run());"), ("snap",),
-          ("raw", "pa.install(|| pb.install(|| p.run()));"), ("snap",)]
+            ("raw", "pa.install(|| pb.install(|| p.run()));"), ("snap",)]
     return st
 
 
+CORPUS = os.path.join(lib.VERIF, "corpus", "C20.jsonl")
+
+
+def corpus_cases():
+    if not os.path.exists(CORPUS):
+        return []
+    return [json.loads(l) for l in open(CORPUS) if l.strip()]
+
+
+def replay_case(path):
+    r = json.load(open(path))
+    cs = r.get("case") or {}
+    if cs.get("family") == "prebuilt":
+        pb = c20_pools.replay(cs)
+        return dict(evaluations=pb["evaluations"], distinct_nontrivial=pb["distinct"], rule="replay of one prebuilt-index history (5 repetitions: the placement of rows on workers is up to rayon)",
+                    samples=[], distribution=pb["kinds"], mismatches=pb["mismatches"])
+    if cs.get("family") == "pools" and cs.get("prog"):
+        p = dict(cs["prog"], rels=[tuple(x) for x in cs["prog"]["rels"]])
+        inp = {k: [tuple(t) for t in v] for k, v in cs["input"].items()}
+        cf = cs["configuration"]
+        try:
+            spec = c20_spec.grouped(c20_spec.least_model(p, inp), p["rels"])
+        except c20_spec.Budget:
+            return None
+        text = dl.rust_program_text(p)
+        scripts = [pool_script(inp, cf["construct_pool"], cf["run_pool"], cf["rerun_pool"], prebuild=cf.get("update_indices_called_in_construct_pool", False)) for _ in range(5)]
+        res = prog.build_and_run("c20pr", [dict(id="c20_replay", text=text, macro="ascent_par", rels=p["rels"], scripts=scripts)], nbins=1, run_timeout=300)["c20_replay"]
+        mism = []
+        for k, iv in enumerate(res):
+            if "snaps" not in iv:
+                mism.append(dict(case=cs, impl=iv, model=None, spec=None, kind="impl_violates_spec", known=None, what="pools configuration did not complete: %s" % json.dumps(iv)[:300]))
+                continue
+            for j, snap in enumerate(iv["snaps"]):
+                isnap = prog.canon_snap(snap)
+                bad = [n for n, _, _ in p["rels"] if isnap[n][1] != spec[n][1] or isnap[n][0] != len(isnap[n][1])]
+                if bad:
+                    mism.append(dict(case=dict(cs, snapshot=j), impl={bad[0]: isnap[bad[0]]}, model=None, spec={bad[0]: spec[bad[0]][1]}, kind="impl_violates_spec", known=None,
+                                     what="pools configuration (repetition %d): relation %s differs from the instance run alone (snapshot %d)" % (k, bad[0], j)))
+                    break
+        return dict(evaluations=len(res), distinct_nontrivial=len(res), rule="replay of one pool configuration of one program (5 repetitions)", samples=[], distribution={}, mismatches=mism)
+    return None
+
+
 def tie(tier, seed, replay):
+    if replay:
+        t = replay_case(replay)
+        if t is not None:
+            return t
     rng = lib.rng_for(seed, PROP, "cfg")
     found, unknown = scan_statics()
     mism = []
@@ -90,11 +147,22 @@ def tie(tier, seed, replay):
         mism.append(dict(case=dict(file=rel, static=name), impl="shared state in the source", model="Engine model has no state shared between instances", spec=None,
                          kind="model_differs", known=None, what="isolation assumption of the model: process-wide state `%s` in %s is not on the reviewed allow-list (gen/props/c20.py STATIC_ALLOW)" % (name, rel)))
     cases = gen_cases(tier, seed)
+    noracle = 0
     results = engine_tie.run(PROP, cases, tag="c20s", spec="strat")
     nskipped = sum(1 for r in results if r.get("skipped"))
     results = [r for r in results if not r.get("skipped")]
     for r in results:
         mism += engine_tie.compare_case(r)
+        # the python specification oracle used for the big inputs below, compared with the Coq specification semantics (Engine/Sem.v) here
+        if r.get("spec") and r["spec"][0] is not None:
+            try:
+                mine = c20_spec.grouped(c20_spec.least_model(r["case"]["prog"], r["case"]["inputs"][0], budget=3_000_000), r["case"]["prog"]["rels"])
+            except c20_spec.Budget:
+                continue
+            coq = engine_tie.group_facts(r["spec"][0], r["case"]["prog"]["rels"])
+            if any(mine[n][1] != coq[n][1] for n, _, _ in r["case"]["prog"]["rels"]):
+                raise lib.Infra("gen/c20_spec.py (python oracle) and Engine/Sem.v strat_fix disagree on %s\n%s\n%r" % (r["case"]["id"], r["text"], r["case"]["inputs"][0]))
+            noracle += 1
     # (1) pool assignments: construction pool / run pool / re-run pool all different, nested install
     sizes = [1, 2, 3, 5, 8, 16]
     jobs, meta = [], {}
@@ -102,10 +170,13 @@ def tie(tier, seed, replay):
     for r in results:
         c = r["case"]
         scripts, cfgs = [], []
-        for _ in range(npool):
+        for q in range(npool + 2):
             a, b, cc = rng.choice(sizes), rng.choice(sizes), rng.choice(sizes)
-            cfgs.append((a, b, cc))
-            scripts.append(pool_script(c["inputs"][0], a, b, cc))
+            pre = q >= npool
+            if pre and a <= b:
+                a, b = max(sizes), min(b, 2)
+            cfgs.append((a, b, cc, pre))
+            scripts.append(pool_script(c["inputs"][0], a, b, cc, prebuild=pre))
         jid = c["id"] + "_pools"
         jobs.append(dict(id=jid, text=dl.rust_program_text(c["prog"]), macro="ascent_par", rels=c["prog"]["rels"], scripts=scripts))
         meta[jid] = (r, "pools", cfgs)
@@ -129,6 +200,10 @@ def tie(tier, seed, replay):
     from . import c20_index
     ix = c20_index.run(tier, seed)
     mism += ix.get("mismatches", [])
+    # (4) indices built BEFORE run() in another pool (initial values / update_indices()), relations of hundreds of rows read with no
+    #     bound column: gen/c20_pools.py (corpus cases first)
+    pb = c20_pools.run(tier, seed, corpus=[e for e in corpus_cases() if e.get("family") == "prebuilt"])
+    mism = pb["mismatches"] + mism
     distinct, kinds = set(), {}
     for jid, m in meta.items():
         r = m[0]
@@ -139,8 +214,8 @@ def tie(tier, seed, replay):
         sg = engine_tie.group_facts(spec, c["prog"]["rels"])
         res = (impl if m[1] == "pools" else cimpl).get(jid)
         for k, iv in enumerate(res or [None]):
-            cfg = (dict(construct_pool=m[2][k][0], run_pool=m[2][k][1], rerun_pool=m[2][k][2]) if m[1] == "pools" else dict(macro=m[2], concurrent_with="all other jobs of the binary", script=k))
-            cs = dict(program=r["text"], input=c["inputs"][0], configuration=cfg)
+            cfg = (dict(construct_pool=m[2][k][0], run_pool=m[2][k][1], rerun_pool=m[2][k][2], update_indices_called_in_construct_pool=m[2][k][3]) if m[1] == "pools" else dict(macro=m[2], concurrent_with="all other jobs of the binary", script=k))
+            cs = dict(program=r["text"], input=c["inputs"][0], configuration=cfg, family=m[1], prog=dict(rels=c["prog"]["rels"], rules=c["prog"]["rules"]))
             if iv is None or "snaps" not in iv:
                 mism.append(dict(case=cs, impl=iv, model=None, spec=None, kind="impl_violates_spec", known=None,
                                  what="%s configuration did not complete (panic / timeout): %s" % (m[1], json.dumps(iv)[:300])))
@@ -154,11 +229,19 @@ def tie(tier, seed, replay):
                     mism.append(dict(case=dict(cs, snapshot=j), impl={bad[0]: isnap[bad[0]]}, model=None, spec={bad[0]: sg[bad[0]][1]}, kind="impl_violates_spec", known=None,
                                      what="%s configuration: relation %s differs from the instance run alone (snapshot %d)" % (m[1], bad[0], j)))
                     break
-    return dict(evaluations=len(results) + len(distinct) + ix.get("evaluations", 0), distinct_nontrivial=len(distinct),
-                rule="random programs: (1) ascent_par! instance constructed in a pool of a threads, run in a pool of b, run again in a pool of c, then under a nested install (a, b, c from {1,2,3,5,8,16}); (2) every job of a binary (different generated types, serial and parallel) runs at the same time on its own OS thread, plus two instances of the same type racing; each result must equal the instance run alone (= specification); plus a source scan listing every static / thread_local / lazy_static of the four crates against a reviewed allow-list; distinct = (program, configuration)",
+    kinds["prebuilt_index_histories"] = pb["kinds"]
+    return dict(evaluations=len(results) + len(distinct) + ix.get("evaluations", 0) + pb["evaluations"], distinct_nontrivial=len(distinct) + pb["distinct"],
+                rule="prebuilt indices: randomised ascent_par! programs around a relation of 150-700 rows that is dynamic (fed / linear / non-linear recursion) and read with no bound column "
+                     "(count, sum, min / max, wildcard negation, cross product, first clause of a later stratum), its rows given as INITIAL VALUES (indexed in Default::default()) or assigned and "
+                     "indexed by update_indices(), in a pool of a threads or on the main thread, then run in a pool of b (a > b in most), run again in a pool of c; every relation must equal the least "
+                     "model (python oracle gen/c20_spec.py) with every row once, and the count() must be what Index/NoIndexLife.v life AlwaysRebuild reads; "
+                     "random programs: (1) ascent_par! instance constructed in a pool of a threads, run in a pool of b, run again in a pool of c, then under a nested install (a, b, c from {1,2,3,5,8,16}; two more with update_indices() called in the construction pool, a > b); (2) every job of a binary (different generated types, serial and parallel) runs at the same time on its own OS thread, plus two instances of the same type racing; each result must equal the instance run alone (= specification); plus a source scan listing every static / thread_local / lazy_static of the four crates against a reviewed allow-list; distinct = (program, configuration)",
                 samples=[dict(program=r["text"], input=r["case"]["inputs"][0]) for r in results[:2]],
                 distribution=dict(programs=len(results), configurations=kinds, statics_found=["%s:%s" % f for f in found]), mismatches=mism,
                 trusted_base=["source scan for shared state (regular expressions over the .rs files)", "FRONT hook; generated crates",
+                              "gen/c20_spec.py (python least-model evaluator, the oracle for inputs of hundreds of rows): compared with Engine/Sem.v strat_fix on the small random cases of every run",
+                              "Index/NoIndexLife.v vs generated code: the history translation of gen/c20_pools.py (rows = ids, round-robin workers, one SCC visit of the big relation); the theorem covers every worker assignment and split into rounds",
                               "RESIDUE: data races on the `static mut` timing statistics are UB in principle; they are not observable in results"],
                 assumptions=["rayon::current_thread_index() < number of threads of the pool the call runs in"],
-                extra=dict(cases_skipped_model_too_slow=nskipped, index_level=ix.get("extra", {}).get("index_level", {k: v for k, v in ix.items() if k in ("evaluations", "distinct_nontrivial")})))
+                extra=dict(cases_skipped_model_too_slow=nskipped, python_oracle_checked_against_coq_spec=noracle,
+                           prebuilt_index_family={k: v for k, v in pb.items() if k != "mismatches"}, index_level=ix.get("extra", {}).get("index_level", {k: v for k, v in ix.items() if k in ("evaluations", "distinct_nontrivial")})))
